@@ -75,13 +75,17 @@ def scripts(rnd, quick):
     for si in range(60 if quick else 600):
         tr, mem16 = rnd.randint(0, 1), rnd.randint(0, 1)
         units = []
+        seq = rnd.choice([0, 65534, 65535, rnd.randint(0, 65535)])
         for _ in range(rnd.randint(2, 8) if si >= 2 else 300):          # two long-lived instances: 300 cycles each
+            # sequence numbers as requesters produce them: counting up (and wrapping), the same number once more (a requester that
+            # started over, two requesters on one link), or anything - a responder executes every valid request it receives
+            seq = rnd.choice([seq, seq, (seq + 1) & 0xFFFF, (seq + 1) & 0xFFFF, rnd.randint(0, 65535)])
             write = rnd.randint(0, 1)
             ws16 = rnd.choice([mem16, mem16, mem16, 1 - mem16])
             ws = 2 if ws16 else 1
             n = rnd.randint(0, 6)
             pl = [rnd.choice([192, 219, 220, 221, rnd.randint(0, 255)]) for _ in range(n * ws)] if write else []
-            o = request(tr, write, ws16, rnd.randint(0, 65535), rnd.getrandbits(32), n, pl)
+            o = request(tr, write, ws16, seq, rnd.getrandbits(32), n, pl)
             if rnd.random() < 0.15:
                 o[rnd.randrange(2, len(o))] ^= 1 << rnd.randint(0, 7)          # a corrupted frame in between
             units.append((o, dict(verdict=rnd.choice([0, 0, 0, 7, 8, 9, 10, 11]), vaddr=rnd.getrandbits(32),
